@@ -1,30 +1,120 @@
 // @append src/value.rs
 // C19 / C17: Mapping::map clamps its input to the input range.
+include!(concat!(env!("KV_HARNESS_DIR"), "/lib/libm.rs"));
 
-// @h prop=C19,C17 tier=quick kind=main
-// @bounds Linear easing; all finite f64 inputs, finite non-degenerate (possibly inverted) input ranges with finite width, finite output ranges |v| <= 1e300
-// @funcs Mapping::map, <f64 as Tweenable>::interpolate
-// @catches clamp applied after the easing or dropped; inverted ranges mishandled; end points swapped
-#[kani::proof]
-#[kani::unwind(2)]
-fn c19_mapping_clamps_input() {
-	let i0: f64 = kani::any();
-	let i1: f64 = kani::any();
+static mut KV_EA_X: f64 = 0.0;
+static mut KV_EA_CALLS: u32 = 0;
+static mut KV_EA_R: f64 = 0.0;
+fn kv_easing_apply_spy(_e: &Easing, x: f64) -> f64 {
+	let r: f64 = kani::any();
+	unsafe { KV_EA_X = x; KV_EA_CALLS += 1; KV_EA_R = r; }
+	r
+}
+
+fn kv_grid(on_grid: bool) -> f64 {
+	if on_grid { let k: i8 = kani::any(); k as f64 / 4.0 } else { kani::any() }
+}
+fn kv_mapping_body(inverted: bool, side: u8) {
+	// "beyond the end => amount == 1" needs the solver to derive q >= 1 from n >= d through a 53-bit
+	// divider, which does not finish on arbitrary f64; those two harnesses use the grid k/4, |k| <= 128
+	let on_grid = side == 1;
+	let i0: f64 = kv_grid(on_grid);
+	let i1: f64 = kv_grid(on_grid);
 	let o0: f64 = kani::any();
 	let o1: f64 = kani::any();
-	let x: f64 = kani::any();
-	kani::assume(i0.is_finite() && i1.is_finite() && i0 != i1 && (i1 - i0).is_finite());
+	let x: f64 = kv_grid(on_grid);
+	kani::assume(i0.is_finite() && i1.is_finite() && (i1 - i0).is_finite());
+	kani::assume(if inverted { i0 > i1 } else { i0 < i1 });
 	kani::assume(x.is_finite() && (x - i0).is_finite());
-	kani::assume(o0.abs() <= 1e300 && o1.abs() <= 1e300);
-	let m = Mapping { input_range: (i0, i1), output_range: (o0, o1), easing: Easing::Linear };
-	let y = m.map(x);
 	let lo_side = if i0 < i1 { x <= i0 } else { x >= i0 };
 	let hi_side = if i0 < i1 { x >= i1 } else { x <= i1 };
-	if lo_side { assert!(y == o0, "inputs at or beyond the start of the range map to output_range.0"); }
-	if hi_side { assert!(y == o0 + (o1 - o0), "inputs at or beyond the end of the range map to output_range.1"); }
-	let amount = ((x - i0) / (i1 - i0)).clamp(0.0, 1.0);
-	assert!(y == o0 + (o1 - o0) * amount);
-	assert!(!y.is_nan());
-	kani::cover!(i0 > i1 && !lo_side && !hi_side, "w:inverted-inside");
-	kani::cover!(i0 < i1 && hi_side, "w:beyond-end");
+	kani::assume(match side { 0 => lo_side, 1 => hi_side, _ => !lo_side && !hi_side });
+	// the easing is irrelevant to the symbolic run (recording stand-in); InPowi(2) / OutPowi(2) are used because they
+	// tell "clamp then ease" from "ease then clamp" apart in the native replay
+	let m = Mapping { input_range: (i0, i1), output_range: (o0, o1), easing: if side == 1 { Easing::OutPowi(2) } else { Easing::InPowi(2) } };
+	let y = m.map(x);
+	if cfg!(kv_native) {
+		// native replay oracle (real arithmetic): clamp, then ease, then interpolate
+		let a = ((x - i0) / (i1 - i0)).clamp(0.0, 1.0);
+		if side == 0 { assert!(a == 0.0); }
+		if side == 1 { assert!(a == 1.0); }
+		let want = o0 + (o1 - o0) * m.easing.apply(a);
+		assert!(y.to_bits() == want.to_bits() || (y.is_nan() && want.is_nan()), "native: map(x) == interpolate(o0, o1, ease(clamp(amount)))");
+		return;
+	}
+	unsafe {
+		assert!(KV_EA_CALLS == 1, "the easing is applied exactly once");
+		let a = KV_EA_X;
+		assert!(a >= 0.0 && a <= 1.0, "the amount handed to the easing is clamped to [0,1]");
+		if side == 0 { assert!(a == 0.0, "inputs at or beyond the start of the input range are clamped to it"); }
+		if side == 1 { assert!(a == 1.0, "inputs at or beyond the end of the input range are clamped to it"); }
+		assert!(y.to_bits() == <f64 as Tweenable>::interpolate(o0, o1, KV_EA_R).to_bits(), "output = interpolate(output_range.0, output_range.1, eased amount)");
+	}
+	kani::cover!(x != i0 && x != i1, "w:strictly-off-the-end-points");
 }
+
+// @h prop=C19,C17 tier=quick kind=main
+// @bounds normal before start: any easing (recording stand-in); all finite f64 inputs on that side; finite non-degenerate input range of finite width; any output range
+// @funcs Mapping::map
+// @assume Easing::apply replaced by a spy; <f64 as Tweenable>::interpolate by a memoised uninterpreted function
+// @catches clamp applied AFTER the easing or dropped; inverted ranges mishandled; output end points swapped
+#[kani::proof]
+#[kani::unwind(2)]
+#[kani::stub(Easing::apply, kv_easing_apply_spy)]
+#[kani::stub(<f64 as Tweenable>::interpolate, kv_interp64)]
+fn c19_mapping_normal_before_start() { kv_mapping_body(false, 0); }
+
+// @h prop=C19,C17 tier=quick kind=main
+// @bounds normal beyond end: any easing (recording stand-in); input, range start and end on the grid k/8 with |k| <= 128 (k/4: 1.6e7 range/input combinations, decided symbolically); any output range
+// @funcs Mapping::map
+// @assume Easing::apply replaced by a spy; <f64 as Tweenable>::interpolate by a memoised uninterpreted function
+// @catches clamp applied AFTER the easing or dropped; inverted ranges mishandled; output end points swapped
+#[kani::proof]
+#[kani::unwind(2)]
+#[kani::stub(Easing::apply, kv_easing_apply_spy)]
+#[kani::stub(<f64 as Tweenable>::interpolate, kv_interp64)]
+fn c19_mapping_normal_beyond_end() { kv_mapping_body(false, 1); }
+
+// @h prop=C19,C17 tier=quick kind=main
+// @bounds normal inside: any easing (recording stand-in); all finite f64 inputs on that side; finite non-degenerate input range of finite width; any output range
+// @funcs Mapping::map
+// @assume Easing::apply replaced by a spy; <f64 as Tweenable>::interpolate by a memoised uninterpreted function
+// @catches clamp applied AFTER the easing or dropped; inverted ranges mishandled; output end points swapped
+#[kani::proof]
+#[kani::unwind(2)]
+#[kani::stub(Easing::apply, kv_easing_apply_spy)]
+#[kani::stub(<f64 as Tweenable>::interpolate, kv_interp64)]
+fn c19_mapping_normal_inside() { kv_mapping_body(false, 2); }
+
+// @h prop=C19,C17 tier=quick kind=main
+// @bounds inverted before start: any easing (recording stand-in); all finite f64 inputs on that side; finite non-degenerate input range of finite width; any output range
+// @funcs Mapping::map
+// @assume Easing::apply replaced by a spy; <f64 as Tweenable>::interpolate by a memoised uninterpreted function
+// @catches clamp applied AFTER the easing or dropped; inverted ranges mishandled; output end points swapped
+#[kani::proof]
+#[kani::unwind(2)]
+#[kani::stub(Easing::apply, kv_easing_apply_spy)]
+#[kani::stub(<f64 as Tweenable>::interpolate, kv_interp64)]
+fn c19_mapping_inverted_before_start() { kv_mapping_body(true, 0); }
+
+// @h prop=C19,C17 tier=quick kind=main
+// @bounds inverted beyond end: any easing (recording stand-in); input, range start and end on the grid k/4 with |k| <= 128; any output range
+// @funcs Mapping::map
+// @assume Easing::apply replaced by a spy; <f64 as Tweenable>::interpolate by a memoised uninterpreted function
+// @catches clamp applied AFTER the easing or dropped; inverted ranges mishandled; output end points swapped
+#[kani::proof]
+#[kani::unwind(2)]
+#[kani::stub(Easing::apply, kv_easing_apply_spy)]
+#[kani::stub(<f64 as Tweenable>::interpolate, kv_interp64)]
+fn c19_mapping_inverted_beyond_end() { kv_mapping_body(true, 1); }
+
+// @h prop=C19,C17 tier=quick kind=main
+// @bounds inverted inside: any easing (recording stand-in); all finite f64 inputs on that side; finite non-degenerate input range of finite width; any output range
+// @funcs Mapping::map
+// @assume Easing::apply replaced by a spy; <f64 as Tweenable>::interpolate by a memoised uninterpreted function
+// @catches clamp applied AFTER the easing or dropped; inverted ranges mishandled; output end points swapped
+#[kani::proof]
+#[kani::unwind(2)]
+#[kani::stub(Easing::apply, kv_easing_apply_spy)]
+#[kani::stub(<f64 as Tweenable>::interpolate, kv_interp64)]
+fn c19_mapping_inverted_inside() { kv_mapping_body(true, 2); }
